@@ -90,6 +90,23 @@ Fixpoint replay (c : cfg) (sch : list nat) (s : st) : option st :=
   | t :: r => match step c s t with Some s' => replay c r s' | None => None end
   end.
 
+(* ------------------------------------------------------------------ the offset computation in machine arithmetic
+   cmsys/record.go AppendRecord, after fsize := Seek(0, End):
+       idxInStore := ptttype.SortIdxInStore(fsize / int64(theSize))     -- SortIdxInStore is int (64 bits on the built platforms)
+       offset     := int64(idxInStore) * int64(theSize)                  -- a 64-bit product
+       Seek(offset, Start); write; return idxInStore.ToSortIdx()         -- idxInStore + 1
+   The interleaving model above computes [length file / sz] and [i * sz] on nat, i.e. without any width. The functions
+   below carry the widths ([wrap64s] after every operation, as Go does); Props/C14.v C14_offset_exact shows that for every
+   file length an off_t can hold they coincide with the unbounded ones, so the nat model is faithful also for files of
+   2 GiB, 4 GiB and more. The check compares them with the index returned and the offset written by the real call on
+   sparse files of those lengths (op 2). *)
+Definition wrap64s (x : Z) : Z := (x + 9223372036854775808) mod 18446744073709551616 - 9223372036854775808.
+Definition append_idx (fsize szz : Z) : Z := wrap64s (Z.quot fsize (wrap64s szz)).
+Definition append_off (fsize szz : Z) : Z := wrap64s (wrap64s (append_idx fsize szz) * wrap64s szz).
+Definition append_ret (fsize szz : Z) : Z := wrap64s (append_idx fsize szz + 1).
+(* Seek(offset, Start) refuses a negative offset (EINVAL): the call fails *)
+Definition append_seek_ok (fsize szz : Z) : bool := 0 <=? append_off fsize szz.
+
 (* ------------------------------------------------------------------ wire *)
 (* case: [[1]; [sz; half]; procs (one per thread; 100+p = process p with an unserialisable payload; 200+p = process p, the call
    goes to another file whose write the OS refuses); init file bytes; schedule]; thread t appends sz bytes of value t+1.
@@ -111,5 +128,8 @@ Definition run_case (args : list (list Z)) : list Z :=
       | None => [ST_ERR; 7]
       | Some s => ST_OK :: flat_map (fun t => pc_code (pcs s t)) (seq 0 n) ++ [-1] ++ file s
       end
+  | [[2]; [fsize; szz]] =>                       (* the offset computation alone: returned index, offset of the write *)
+      if (szz <=? 0) || (fsize <? 0) then [ST_BADCASE]
+      else if append_seek_ok fsize szz then [ST_OK; append_ret fsize szz; append_off fsize szz] else [ST_ERR; 1]
   | _ => [ST_BADCASE]
   end.
